@@ -86,12 +86,12 @@ def native_replay(name, inputs_path):
         if not os.path.exists(exe):
             continue
         try:
-            p = subprocess.run([exe, name, inputs_path], capture_output=True, text=True, timeout=120)
+            p = subprocess.run([exe, name, inputs_path], capture_output=True, text=True, timeout=30)
             out = p.stdout
             if p.returncode != 0 and 'RESULT:' not in out:
                 out += f'\nRESULT: PANIC abnormal exit rc={p.returncode} {p.stderr[-300:]}'
         except subprocess.TimeoutExpired:
-            out = 'RESULT: PANIC native run exceeded 120 s (non-termination?)'
+            out = 'RESULT: PANIC native run exceeded 30 s (non-termination?)'
         line = [l for l in out.split('\n') if l.startswith('RESULT:')]
         res.append((prof, line[-1][8:].strip() if line else 'NORESULT', [l[6:] for l in out.split('\n') if l.startswith('NOTE: ')]))
     return res
@@ -210,6 +210,19 @@ def _decide(h, meta, cfg, r):
             if v != 'sat':
                 vac_fail = ('error' if v == 'unsat' else 'undecided',
                             f'vacuity twin is {v}: the harness end (or call site) is not reachable / not decided' + (o[:300] if v == 'error' else ''))
+                hang = os.path.join(work, 'hang.inputs')
+                if h['kind'] == 'normal' and os.path.exists(hang):
+                    reps = native_replay(name, hang)
+                    if reps and all('exceeded' in res for _, res, _ in reps):
+                        r['verdict'] = 'violation'
+                        r['decided_in'] = 'harness end not shown reachable + native run without end'
+                        r['detail'] = 'the harness end was not shown reachable and the native run on an admitted input does not terminate: ' + '; '.join(f'{p}: {res}' for p, res, _ in reps)
+                        rdir = os.path.join(BUILD, 'replays') if engine.REPO != '/repo' else os.path.join(VERIF, 'replays')
+                        os.makedirs(rdir, exist_ok=True)
+                        rp = os.path.join(rdir, f'{name}.inputs')
+                        shutil.copy(hang, rp)
+                        r['replay'] = rp
+                        return
                 if not (v == 'unsat' and h['kind'] == 'normal' and main):
                     r['verdict'], r['detail'] = vac_fail
                     return
@@ -243,6 +256,36 @@ def _decide(h, meta, cfg, r):
                     return
                 final = ('undecided', f'{mode}: sat but {attempts} model(s) did not reproduce natively')
                 break
+            if v in ('timeout', 'unknown') and 1 < len(main) <= 24 and not block:
+                # the disjunction as a whole did not close: decide the disjuncts one by one (each query only has
+                # to reason about one obligation); all unsat = unsat, any sat = a model to replay
+                import concurrent.futures as _cf
+                each = max(10, min(60, cap // 2))
+
+                def one(d):
+                    q1 = lines + [f'(assert {d})', '(check-sat)']
+                    if getq:
+                        q1.append(f'(get-value ({" ".join(getq)}))')
+                    return engine.run_solver(q1, each, cfg['seed'])
+                verdicts = []
+                with _cf.ThreadPoolExecutor(3) as ex:
+                    for (v1, o1, s1) in ex.map(one, main):
+                        verdicts.append((v1, o1))
+                        r['queries'] += 1
+                        r['solver_s'] += s1
+                r['split'] = dict(disjuncts=len(main), unsat=sum(1 for x, _ in verdicts if x == 'unsat'),
+                                  sat=sum(1 for x, _ in verdicts if x == 'sat'))
+                sat1 = [o1 for x, o1 in verdicts if x == 'sat']
+                if sat1:
+                    v, o = 'sat', sat1[0]
+                elif all(x == 'unsat' for x, _ in verdicts):
+                    v = 'unsat'
+                    if vac_fail:
+                        r['verdict'], r['detail'] = vac_fail
+                        return
+                    r['verdict'] = 'unsat'
+                    r['decided_in'] = mode + ' (per-disjunct)'
+                    return
             if v != 'sat':
                 final = ('undecided', f'{mode}: solver answered {v} ' + (o[:200] if v == 'error' else ''))
                 break
@@ -321,7 +364,7 @@ def pinned_value(k, variant):
     return num
 
 
-def _candidates(seed, n=40):
+def _candidates(seed, n=40, hint=None):
     """candidate concrete inputs for native exploration: the two fixed pinned sets, then seeded pseudo-random
     small dyadic floats and small integers"""
     import random
@@ -335,13 +378,20 @@ def _candidates(seed, n=40):
             f = {k: ('real', Fraction(rnd.randint(-8 * span, 8 * span), 8 * rnd.choice([1, 1, 16]))) for k in range(engine.NINPUT)}
             top = rnd.choice([1, 3, 8, 40, 70])
             u = {k: rnd.randint(0, top) for k in range(engine.NINPUT)}
+        # harness-provided hint (`// @witness <harness>: f4=0.1 u0=3`): values known to satisfy the assumptions
+        for tok in (hint or '').split():
+            k, _, val = tok.partition('=')
+            if k[0] == 'f':
+                f[int(k[1:])] = ('real', Fraction(val))
+            elif k[0] == 'u':
+                u[int(k[1:])] = int(val)
         yield {'f64': f, 'u64': u}
 
 
 def _replay_pinned(h, work, r, seed=0):
     """the harness end is unreachable symbolically: look natively for an admitted input on which the code
     under test fails (panics); a FAIL/PANIC there is a reproduced violation"""
-    for n, model in enumerate(_candidates(seed)):
+    for n, model in enumerate(_candidates(seed, hint=h.get('witness'))):
         ipath = os.path.join(work, f'pinned_{n}.inputs')
         write_inputs(ipath, model)
         reps = native_replay(h['name'], ipath)
@@ -368,12 +418,15 @@ def _reach_witness(h, work, seed):
     """an input on which the harness reaches its end natively, found among the candidate inputs; the vacuity
     twin is then a ground evaluation on that input instead of a search"""
     exe = os.path.join(BUILD, 'native', 'debug', 'vhreplay')
-    for model in _candidates(seed):
+    for model in _candidates(seed, hint=h.get('witness')):
         ipath = os.path.join(work, 'reach.inputs')
         write_inputs(ipath, model)
         try:
             p = subprocess.run([exe, h['name'], ipath], capture_output=True, text=True, timeout=20)
         except subprocess.TimeoutExpired:
+            # an admitted input on which the native run does not come back: remember it (non-termination)
+            hang = os.path.join(work, 'hang.inputs')
+            shutil.copy(ipath, hang)
             continue
         # FAIL counts too: natively a failed obligation stops the run, symbolically it is only recorded
         if 'RESULT: PASS' in p.stdout or 'RESULT: FAIL' in p.stdout:
